@@ -1,5 +1,5 @@
 import Proofs.C02
-import Proofs.Gen
+import Proofs.GenTables
 #print axioms Xsel.C02.exec_refines_spec
 #print axioms Xsel.C02.run_refines_spec
 #print axioms Xsel.C02.preds_refine_spec
